@@ -87,8 +87,17 @@ def _stencils(ctx):
     key = f"{DSP}::timeshift"; fn = repo.get(key); where = repo.where(key, fn)
     thorough = ctx.tier == "thorough"
     n = 32 if thorough else 24
-    ARRAY_KIND["dat"] = "real"; ARRAY_KIND["tap"] = "real"
-    for halfp in ((1, 2, 3, 4) if thorough else (1, 2, 3)):
+    ARRAY_KIND["dat"] = "complex"; ARRAY_KIND["tap"] = "real"        # records may be complex: the interpolant is linear, never conjugating
+    # block sizes: a module-level integer constant used as the step of a range() in timeshift partitions the record; every instance is
+    # also run with such a constant made small (7), so that several blocks occur within the instance length
+    steps = []
+    mod = repo.module(DSP)
+    consts = {t.id for st_ in mod.body if isinstance(st_, ast.Assign) for t in st_.targets if isinstance(t, ast.Name)}
+    for nd in ast.walk(fn):
+        if isinstance(nd, ast.Call) and isinstance(nd.func, ast.Name) and nd.func.id == "range" and len(nd.args) == 3 and isinstance(nd.args[2], ast.Name) and nd.args[2].id in consts:
+            if nd.args[2].id not in steps: steps.append(nd.args[2].id)
+    blockings = [None] + [(nm, 7) for nm in steps]
+    for halfp, blocking in [(h_, b_) for h_ in ((1, 2, 3, 4) if thorough else (1, 2, 3)) for b_ in blockings]:
         for shift in ((Fr(9, 4), Fr(-7, 2), Fr(3, 4), Fr(-1, 8), Fr(5), Fr(16, 3)) if thorough else (Fr(9, 4), Fr(-7, 2), Fr(3, 4))):
             for path in ("constant", "varying"):
                 I = Interp(repo)
@@ -105,13 +114,17 @@ def _stencils(ctx):
                     return NotImplemented
                 I.hooks["call"] = call
                 I.hooks["decide"] = lambda cond: (False if cond.key[0] == "src" else None)
-                data = ArrParam("dat", shape=(X.const(n),))
+                if blocking: I.module_globals(DSP)[blocking[0]] = X.const(blocking[1])
+                data = ArrParam("dat", kind="complex", shape=(X.const(n),))
                 sh = X.const(shift) if path == "constant" else Arr([(fresh("i"), X.const(n))], X.const(shift))
-                c = f"{key}[{path} shift {shift}, order {2 * halfp - 1}]"
+                c = f"{key}[{path} shift {shift}, order {2 * halfp - 1}" + (f", {blocking[0]}={blocking[1]}" if blocking else "") + "]"
                 try:
                     r = I.call_key(key, [data, sh], {"order": X.const(2 * halfp - 1)}, St())
                 except Unknown as ex:
                     ctx.unknown("R2-stencil-alignment", c, str(ex), where); continue
+                if isinstance(r, LocalArr):
+                    from ..values import local_to_arr
+                    r = local_to_arr(r, None) or Opaque("output array only partially filled")
                 A = as_arr(r) if not is_opaque(r) and r is not None else None
                 if A is None or A.ndim != 1:
                     ctx.ob("R2-stencil-alignment", c, VIOLATED if isinstance(r, Mismatch) else UNKNOWN, f"result not recognised: {r!r}"[:200], where); continue
@@ -130,7 +143,7 @@ def _stencils(ctx):
                     row = X.const(0) if path == "constant" else X.const(m)
                     want = X.const(0)
                     for k in range(2 * halfp):
-                        want = want + mk_idx("dat", [X.const(m + si - (halfp - 1) + k)], "real") * mk_idx("tap", [row, X.const(k)], "real")
+                        want = want + mk_idx("dat", [X.const(m + si - (halfp - 1) + k)], "complex") * mk_idx("tap", [row, X.const(k)], "real")
                     if gx is None or not gx.eq(want):
                         ok = False; detail = f"output sample {m}: {g!r} instead of {want!r}"[:300]; break
                 (ctx.holds if ok else ctx.violated)("R2-stencil-alignment", c, "tap k meets data[n + floor(s) - (halfp-1) + k] for interior n" if ok else
